@@ -444,12 +444,24 @@ func genSpec(c *vh.Ctx) *MsgSpec {
 	if no > nf {
 		no = nf
 	}
+	// a third of the schemas draw their field names from one cluster of names that meet each other
+	fpool, npool := fieldPool, nestedPool
+	switch r.Intn(6) {
+	case 0: // camelCase XFoo and its "_<number>" neighbours (resolveCamelCaseConflicts)
+		fpool = []string{"_foo", "x_foo", "X_foo", "xFoo", "XFoo", "XFoo_1", "XFoo_2", "XFoo_3", "x_foo_2", "XFoo_2_3", "XFoo_1_2", "XFoo_", "x_foo_"}
+	case 1: // oneof members against nested types (wrapper rename loop)
+		fpool = []string{"a", "A", "a_", "A_", "a__", "A__", "b", "B", "b_", "B_", "x", "x_", "X_"}
+		npool = []string{"A", "A_", "A__", "B", "B_", "X", "X_"}
+		if no == 0 {
+			no = 1
+		}
+	}
 	for i := 0; i < no; i++ {
 		m.Oneofs = append(m.Oneofs, pick(fieldPool))
 	}
 	nums := r.Perm(7)
 	for i := 0; i < nf; i++ {
-		f := FieldSpec{Name: pick(fieldPool), Num: nums[i] + 1, Oneof: -1}
+		f := FieldSpec{Name: pick(fpool), Num: nums[i] + 1, Oneof: -1}
 		if i < no {
 			f.Oneof = i // every oneof gets at least one member
 		} else if no > 0 && r.Intn(3) == 0 {
@@ -489,13 +501,13 @@ func genSpec(c *vh.Ctx) *MsgSpec {
 	ident := map[string]bool{}
 	for i, k := 0, r.Intn(3); i < k; i++ {
 		// nested type names are context, not what C42 quantifies over: keep their Go identifiers distinct
-		if n := pick(nestedPool); !ident[strs.GoCamelCase("M."+n)] {
+		if n := pick(npool); !ident[strs.GoCamelCase("M."+n)] {
 			ident[strs.GoCamelCase("M."+n)] = true
 			m.Msgs = append(m.Msgs, n)
 		}
 	}
 	for i, k := 0, r.Intn(2); i < k; i++ {
-		if n := pick(nestedPool); !ident[strs.GoCamelCase("M."+n)] {
+		if n := pick(npool); !ident[strs.GoCamelCase("M."+n)] {
 			ident[strs.GoCamelCase("M."+n)] = true
 			m.Enums = append(m.Enums, n)
 		}
